@@ -141,8 +141,10 @@ Write(s, p, n, v) ==
      /\ h' = Append(h, [a |-> "write", s |-> s, p |-> p, n |-> n, v |-> v, res |-> "ok",
                         kc |-> ~SameKindOrFree(p, n, v), ro |-> FALSE, hs |-> handle, obs |-> Obs(file')])
 
+\* (only attempts that would change something: storing the value a slot already holds need not touch the file)
 Backdoor(s, d, p, n, v) ==
   /\ BackdoorRefused(s)
+  /\ file[p][n] # v
   /\ h' = Append(h, [a |-> "backdoor", s |-> s, door |-> d, p |-> p, n |-> n, v |-> v, res |-> "err",
                      ro |-> TRUE, hs |-> handle, obs |-> Obs(file)])
 
